@@ -160,6 +160,19 @@ class Ref2D(object):
         return sure, maybe
 
 
+def float32_slack(bands, logmodel, k, av, sc):
+    """first-order bound on the change of the objective when every model log flux moves by its float32 resolution:
+    storage 6e-8 relative in flux (2.6e-8 dex) + log10 evaluated in float32 (1.2e-7 relative to |log flux|)"""
+    slack = 0.
+    for b, L, kk in zip(bands, logmodel, k):
+        if b[0] != 'fit':
+            continue
+        delta = 3e-7 * max(1., abs(L)) + 1e-7
+        res = abs(b[1] - L - av * kk + 2. * sc)
+        slack += b[2] * (2. * res * delta + delta * delta)
+    return 2. * slack
+
+
 def check_fit_2d(ref, av, sc, chi2, float32=False, what=''):
     """
     Returns None if (av, sc, chi2) is acceptable for this reference problem, else (signature, message).
@@ -174,12 +187,8 @@ def check_fit_2d(ref, av, sc, chi2, float32=False, what=''):
     slack = 0.
     margin = 1e-9
     if float32:
-        # model fluxes stored as float32 (documented lossy step): up to delta dex on each model log flux
-        delta = 1e-6
-        for w, r, kk in ref.fit:
-            res = abs(float(r) - av * float(kk) + 2 * sc)
-            slack += float(w) * (2 * res * delta + delta * delta)
-        slack *= 2
+        # model fluxes stored as float32 and their log10 taken in float32 (documented lossy step)
+        slack = float32_slack(ref.bands, ref.logmodel, ref.k, av, sc)
         margin = 1e-5
     # closed-form float64 solutions lose ~eps*cond relative accuracy in the parameters, i.e. an objective
     # excess of ~(eps*cond)^2 * T: negligible for cond <= 1e8, dominant for nearly singular (but legal) inputs
